@@ -336,6 +336,12 @@ func reduced() []wire.Spec {
 		S("POST", wire.FChunkedExpect, 3),
 		S("PUT", wire.FChunkedExpect, 8193),
 	}
+	// trailer field names are tokens: digits, dots and other tchars are as good as letters
+	for _, tn := range []string{"0-Trace", "007", "x.y", "a0"} {
+		s := S("POST", wire.FChunkedTrailer, 3)
+		s.TrName = tn
+		rs = append(rs, s)
+	}
 	with := func(s wire.Spec, f func(*wire.Spec)) wire.Spec { f(&s); return s }
 	rs = append(rs,
 		with(S("POST", wire.FChunked, 4096), func(s *wire.Spec) { s.Part = wire.PBytes1 }),
